@@ -60,6 +60,8 @@ impl<'tree> Graph<'tree> {
             kind: node.kind(),
             position: node.start_position(),
         };
+        #[cfg(feature = "verif-hooks")]
+        crate::verif_hooks::observe_syntax_node(self.syntax_nodes.get(&index), &node);
         self.syntax_nodes.entry(index).or_insert(node);
         node_ref
     }
